@@ -117,6 +117,13 @@ func checkC04(c *Ctx, r *Report) {
 		// C04.c schemes declared as configured
 		checkSecuritySchemes(c, r, "C04.c", e.Ver, e.Pkg)
 	}
+	// same order: the JSON post-processing re-orders object keys and enum arrays only; the
+	// `security` arrays (alternatives, in annotation order) are never sorted
+	ruleWhoCalls(c, r, "C04.a", nameIs("generator/swagen/swagtool.sortEnumArray"), "swagtool.sortEnumArray",
+		[]string{"generator/swagen/swagtool.sortEnumInSchema"}, 1, "only `enum` arrays are sorted by ForceOrderedJSON: every other array of the document (security requirements, parameters, servers, tags) keeps the order the emitters produced")
+	ruleWhoCalls(c, r, "C04.a", func(n string) bool {
+		return strings.HasPrefix(n, "sort.") || strings.HasPrefix(n, "slices.Sort")
+	}, "sort.*/slices.Sort* in generator/swagen/swagtool", swagtoolSorters(c.W), 1, "sorting inside swagtool is confined to the enum sorter (and key ordering)")
 	// the router enforces the names and scopes verbatim: they are emitted raw ({{{ }}}), not HTML-escaped
 	for _, en := range c.T.Order {
 		eng := c.T.Engines[en]
@@ -651,4 +658,17 @@ func constNamed(fi *FuncInfo, name string) bool {
 		return true
 	})
 	return found
+}
+
+// swagtoolSorters: the allowed set for the sort who-calls rule is {sortEnumArray} plus every
+// function OUTSIDE swagtool that sorts (the rule is about swagtool only).
+func swagtoolSorters(w *World) []string {
+	out := []string{"generator/swagen/swagtool.sortEnumArray"}
+	for _, cl := range w.callersOf(func(n string) bool { return strings.HasPrefix(n, "sort.") || strings.HasPrefix(n, "slices.Sort") }) {
+		fn := fnShort(cl.Parent())
+		if !strings.HasPrefix(strings.TrimLeft(fn, "(*"), "generator/swagen/swagtool.") {
+			out = append(out, fn)
+		}
+	}
+	return dedupSortedPlain(out)
 }
